@@ -186,10 +186,11 @@ pub fn check_origins(o: &Outcome, st: &mut Stats) -> Result<(), (String, serde_j
                     gap_labels.push(l.clone());
                 }
             }
-            if i > 0 {
+            // (not for `__FILE__ / `__LINE__: the synthesised text is the literal alone, the white space around it is the file's)
+            if i > 0 && !matches!(labels[i - 1], Label::Synth) {
                 gap_labels.push(labels[i - 1].clone());
             }
-            if i < atoks.len() {
+            if i < atoks.len() && !matches!(labels[i], Label::Synth) {
                 gap_labels.push(labels[i].clone());
             }
             for p in prev_end..gap_end {
